@@ -74,7 +74,8 @@ def _union_loop(edge_dir):
             g = stx.g(me)
             acc = stx.env["gates"]
             y, n = ex.ctx.fresh_name("uy"), ex.ctx.fresh_name("un")
-            e = (lambda a, b: g.edge(a, b)) if edge_dir == "in" else (lambda a, b: g.edge(b, a))
+            r = ex.reach(g)
+            e = {"in": lambda a, b: g.edge(a, b), "out": lambda a, b: g.edge(b, a), "anc": lambda a, b: r(a, b), "desc": lambda a, b: r(b, a)}[edge_dir]
             return z3.And(z3.ForAll([y], acc.mem(y) == z3.Exists([n], z3.And(done.mem(n), e(y, n)))),
                           z3.ForAll([n], z3.Implies(done.mem(n), g.node(n))))  # no visited element raised
         return ex.invariant_for(s, st, it, ordinal, inv, mod_locals=["gates"])
@@ -169,8 +170,12 @@ TASKS["layer1/Circuit.set_type"] = setter_task("Circuit.set_type", ["ns", "t"], 
 TASKS["layer1/Circuit.outputs"] = refine_task("Circuit.outputs", {"": []}, [])
 TASKS["layer1/Circuit.inputs"] = refine_task("Circuit.inputs", {"": []}, [])
 TASKS["layer1/Circuit.io"] = refine_task("Circuit.io", {"": []}, [])
-TASKS["layer1/Circuit.startpoints"] = refine_task("Circuit.startpoints", {"no-arg": []}, [])
-TASKS["layer1/Circuit.endpoints"] = refine_task("Circuit.endpoints", {"no-arg": []}, [])
+_SHAPES = {"str": ["str"], "list": ["list"], "set": ["set"]}
+TASKS["layer1/Circuit.startpoints"] = refine_task("Circuit.startpoints", dict({"no-arg": []}, **_SHAPES), ["ns"], exclude_self_summary=False)
+TASKS["layer1/Circuit.endpoints"] = refine_task("Circuit.endpoints", dict({"no-arg": []}, **_SHAPES), ["ns"], exclude_self_summary=False)
+TASKS["layer1/Circuit.is_cyclic"] = refine_task("Circuit.is_cyclic", {"": []}, [])
+TASKS["layer1/Circuit.transitive_fanin"] = refine_task_loops("Circuit.transitive_fanin", _SHAPES, ["ns"], {1: _union_loop("anc")})
+TASKS["layer1/Circuit.transitive_fanout"] = refine_task_loops("Circuit.transitive_fanout", _SHAPES, ["ns"], {1: _union_loop("desc")})
 
 
 # ---- uid: `while f"{n}_{i}" in self.graph or ... in blocked: i = i+1 | i*7`
